@@ -381,11 +381,11 @@ func suiteC02(c *Ctx) {
 		c.emit(Case{"exhaustive-2byte", []Step{{Op: "NI", W: 2, Args: ai}, {Op: "NU", W: 2, Args: au}}, false})
 	}
 	// random trees and messages, complete and incomplete
-	n := c.scale(1500, 10000)
+	n := c.scale(1500, 5000)
 	for i := 0; i < n; i++ {
 		g := c.gen()
 		withVars := g.chance(0.25)
-		it := g.tree(treeOpts{depth: g.pick(5), vars: withVars, ellipsis: withVars && g.chance(0.3), maxLeaf: c.scale(600, 6000)})
+		it := g.tree(treeOpts{depth: g.pick(5), vars: withVars, ellipsis: withVars && g.chance(0.3), maxLeaf: c.scale(600, 2000)})
 		switch g.pick(4) {
 		case 0:
 			m := g.hsmsMsg(it)
@@ -432,7 +432,7 @@ func suiteC01(c *Ctx) {
 			c.emit(Case{"roundtrip-large", g.steps, false})
 		}
 	}
-	n := c.scale(1200, 8000)
+	n := c.scale(1200, 4000)
 	for i := 0; i < n; i++ {
 		g := c.gen()
 		var m int
@@ -449,7 +449,7 @@ func suiteC01(c *Ctx) {
 		default:
 			depth := g.pick(5)
 			if g.chance(0.05) {
-				depth = 20 + g.pick(c.scale(230, 1500))
+				depth = 20 + g.pick(c.scale(230, 480))
 			}
 			var it int
 			if depth >= 20 {
@@ -460,7 +460,7 @@ func suiteC01(c *Ctx) {
 				}
 				g.count("deep-chain")
 			} else {
-				it = g.tree(treeOpts{depth: depth, maxLeaf: c.scale(400, 6000)})
+				it = g.tree(treeOpts{depth: depth, maxLeaf: c.scale(400, 2000)})
 			}
 			m = g.hsmsMsg(it)
 		}
@@ -560,7 +560,7 @@ func suiteC03(c *Ctx) {
 		}
 	}
 	// nesting is not limited: chains of single-element lists of every depth up to 300 are well formed
-	for d := 1; d <= c.scale(300, 3000); d += 1 + d/40 {
+	for d := 1; d <= c.scale(300, 900); d += 1 + d/40 {
 		text := bytes.Repeat([]byte{1, 1}, d)
 		text = append(text, 0xa5, 1, byte(d))
 		steps = append(steps, Step{Op: "HP", S: frame(text)})
